@@ -510,15 +510,14 @@ def _reseedable(o):
 
 def blame_stale(ds, path, stale_paths, hook_kwargs):
     """diagnostics (names the mechanism, never decides): which class failed to pass the worker's generator on?
-    Walks the holders of a stale generator from the outermost one below which *every* generator is stale and asks each,
-    through its public API (worker_init_fn for datasets, set_rng otherwise), to take a generator: the blamed class is the
-    innermost holder that does not deliver it to this generator's owner although the next holder inside would take it."""
+    Walks the holders of a stale generator from the outermost one inwards and asks each, through its public API
+    (worker_init_fn for datasets, set_rng otherwise), to take a generator: the blamed class is the innermost holder that
+    does not deliver it to this generator's owner although the next holder inside does."""
     ds = copy.deepcopy(ds)     # the probing below replaces generators: work on a throw-away copy
     entries = census(ds)
     entry = next((e for e in entries if e.path == path), None)
     if entry is None:
         return "unattributed"
-    stale_ids = {id(e.gen) for e in entries if e.path in stale_paths} | {id(entry.gen)}
     chain = [o for o in entry.chain if _reseedable(o)]
     if not chain:
         return "unattributed"
@@ -532,22 +531,16 @@ def blame_stale(ds, path, stale_paths, hook_kwargs):
                 o.set_rng(np.random.default_rng(123456789))
             return id(entry.gen) not in {id(e.gen) for e in census(o)}
         except Exception:  # noqa: BLE001 - diagnostics only
-            return True
+            return False
         finally:
             np.random.set_state(st)
 
-    start = len(chain) - 1
+    # outermost holder that delivers a new generator to this place when asked directly: the holder around it did not
+    # forward (the stack's own hook already failed to, so the outermost holder never "takes")
     for i, o in enumerate(chain):
-        gens = census(o)
-        if gens and all(id(e.gen) in stale_ids for e in gens):
-            start = i
-            break
-    if takes(chain[start]):
-        return repo_class_name(chain[start - 1] if start > 0 else chain[start])
-    i = start
-    while i + 1 < len(chain) and not takes(chain[i + 1]):
-        i += 1
-    return repo_class_name(chain[i])
+        if takes(o):
+            return repo_class_name(chain[i - 1] if i > 0 else o)
+    return repo_class_name(chain[-1])
 
 
 # ------------------------------------------------------------------------------------------------ simulated worker
